@@ -120,6 +120,7 @@ type FuncC struct {
 	Arith     string   // "" (native div/mod) or "uf"
 	Cut       *CutC    // optional cut point splitting the proof into two phases
 	Specs     []SpecLet // named spec values over the entry state (opaque after a cut)
+	Uses      []string  // if set: of the callees' tagged ensures only those with one of these tags are assumed
 	Line      int
 }
 
@@ -424,7 +425,7 @@ func parseExprString(s string) (e Expr, err error) {
 // ---------- file-level parser ----------
 
 var itemKeywords = map[string]bool{"uf": true, "pure": true, "func": true, "extern": true, "trusted": true, "lemma": true, "ghost": true}
-var clauseKeywords = map[string]bool{"spec": true, "cut": true, "assert": true, "arith": true, "requires": true, "ensures": true, "modifies": true, "decreases": true, "split": true,
+var clauseKeywords = map[string]bool{"uses": true, "spec": true, "cut": true, "assert": true, "arith": true, "requires": true, "ensures": true, "modifies": true, "decreases": true, "split": true,
 	"loop": true, "invariant": true, "backedge": true, "iteration": true, "bounded": true, "panics": true}
 
 // readContractLines returns the logical lines (keyword + text) of all //@ lines
@@ -611,21 +612,20 @@ func ParseContracts(paths []string) (*Contracts, error) {
 				if k < 0 {
 					return nil, fail(fmt.Errorf("lemma: missing ':'"))
 				}
-				tags, name := parseTags(l.text[:k])
-				// allow tags after the name too
-				if len(tags) == 0 {
-					f := strings.Fields(l.text[:k])
-					name = f[0]
-					for _, x := range f[1:] {
-						tg, _ := parseTags(x)
-						tags = append(tags, tg...)
-					}
+				head := strings.Fields(l.text[:k])
+				if len(head) == 0 {
+					return nil, fail(fmt.Errorf("lemma: missing name"))
+				}
+				var tags []string
+				for _, x := range head[1:] {
+					tg, _ := parseTags(x)
+					tags = append(tags, tg...)
 				}
 				e, err := parseExprString(l.text[k+1:])
 				if err != nil {
 					return nil, fail(err)
 				}
-				cs.Lemmas = append(cs.Lemmas, &Lemma{Name: strings.TrimSpace(name), Tags: tags, E: e, Text: strings.TrimSpace(l.text[k+1:])})
+				cs.Lemmas = append(cs.Lemmas, &Lemma{Name: head[0], Tags: tags, E: e, Text: strings.TrimSpace(l.text[k+1:])})
 			case "func", "extern", "trusted":
 				name := strings.TrimSpace(l.text)
 				if _, dup := cs.Funcs[name]; dup {
@@ -659,6 +659,9 @@ func ParseContracts(paths []string) (*Contracts, error) {
 					cur.Specs = append(cur.Specs, SpecLet{Name: strings.TrimSpace(l.text[:k]), E: e})
 				case "arith":
 					cur.Arith = strings.TrimSpace(l.text)
+				case "uses":
+					tags, _ := parseTags(l.text)
+					cur.Uses = append(cur.Uses, tags...)
 				case "cut":
 					txt, err := strconv.Unquote(strings.TrimSpace(l.text))
 					if err != nil {
